@@ -143,7 +143,8 @@ def run_family(C, job):
     sel_cache = {}
 
     def selected(var, key):
-        k = (var, key.base.get_id(), z3.simplify(key.off).get_id(), z3.simplify(key.ln).get_id()) if isinstance(key, Str) else (var, key)
+        k = (var, key.base.get_id(), z3.simplify(key.off).get_id(), z3.simplify(key.ln).get_id(),
+             tuple(e.get_id() for e in key.elems) if key.elems is not None else None) if isinstance(key, Str) else (var, key)
         if k not in sel_cache:
             okc = []
             for cond, kindp, pairs in sel_paths:
@@ -159,8 +160,26 @@ def run_family(C, job):
         miss = [z3.Not(selected(var, key)) for _, var, key in fetches]
         if miss:
             viol.append(z3.And(o.cond(), z3.Or(*miss)))
+    if os.environ.get('VERIF_DEBUG'):
+        seen = {}
+        for o in outs:
+            for _, var, key in [n for n in o.st.notes if n[0] == 'fetch']:
+                who = [n_ for n_, u in (('sender', w.sender), ('target', w.target), ('authoriser', w.authoriser), ('creator', w.creator)) if isinstance(key, Str) and u.str.base.get_id() == key.base.get_id()]
+                kk = (var, str(key.elems[1]) if isinstance(key, Str) and key.elems else str(key)[:20])
+                seen[kk] = seen.get(kk, 0) + 1
+        print('[debug] reads', seen, file=sys.stderr)
+        cnt = {'sat': 0, 'unsat': 0, 'unknown': 0}
+        for o in outs:
+            fa = [n for n in o.st.notes if n[0] == 'fetch' and isinstance(n[2], Str) and n[2].elems and str(n[2].elems[1]) == 'auth_l']
+            if fa:
+                sel_ = selected(fa[0][1], fa[0][2])
+                s_ = z3.Solver(); s_.set('timeout', 5000); s_.add(*base, applicable, *E.axioms, o.cond(), z3.Not(sel_))
+                cnt[str(s_.check())] += 1
+        print('[debug] auth-read paths with not-selected:', cnt, file=sys.stderr)
+    # only events for which the selection is defined (the others are malformed and rejected without a selection)
+    sel_defined = z3.Or(*[c for c, kp, _ in sel_paths if kp == 'ok']) if any(kp == 'ok' for _, kp, _ in sel_paths) else z3.BoolVal(False)
     r, m = C.solve_split(f'{label}: every state read of auth_check is a selected auth-event key ({nreads} reads on {len(outs)} paths)',
-                         base + [applicable] + list(E.axioms), viol)
+                         base + [applicable, sel_defined] + list(E.axioms), viol)
     if r == 'sat':
         vec = SPEC.concretise(w, m, version)
         res = C.native(vec)
@@ -171,8 +190,6 @@ def run_family(C, job):
         if outside:
             C.report_violation(f'{label}: auth_check reads state keys {outside} that are not among the selected auth events {sel.get("pairs")}: {vec["summary"]["incoming"]}', vec)
             C.samples.append({'query': label, 'reads_outside_selection': outside})
-        elif sel.get('r') != 'ok':
-            pass     # selection undefined for this event (it is rejected before any selected read): nothing to compare
         else:
             raise Broken(f'{label}: read-set model does not reproduce natively: reads {res.get("reads")} selection {sel}')
     C.bounds[label] = {'auth_check_paths': len(outs), 'state_reads': nreads, 'selection_paths': len(sel_paths)}
